@@ -789,6 +789,10 @@ func cmdGen(args []string) {
 						if !runOp(em, g, m, w, op, run) {
 							break
 						}
+						if g.Cfg.Cached {
+							// once more, now served from the plan cache: the plan the first execution left there is judged too
+							runOp(em, g, nil, w, op, run+".again")
+						}
 					}
 				}
 			}
@@ -909,7 +913,7 @@ func allFields(ss []*world.Sel, acc *[]*world.Sel) {
 // invalidRuns derives invalid operations from a valid one by a single mutation and sends them.
 func invalidRuns(em *emitter, rng *rand.Rand, g *gw.GW, mono *fakesvc.Net, w *world.World, op *world.Op, run string) {
 	kinds := []string{"unknown-field", "unknown-argument", "unknown-type", "undeclared-variable", "wrong-variable-type",
-		"selection-on-leaf", "object-without-selection", "fragment-cycle", "two-operations-no-name", "unknown-operation-name", "syntax-error"}
+		"selection-on-leaf", "object-without-selection", "fragment-cycle", "two-operations-no-name", "unknown-operation-name", "operation-name-for-anonymous", "syntax-error"}
 	kind := kinds[rng.Intn(len(kinds))]
 	c := cloneOp(op)
 	var fields []*world.Sel
@@ -980,6 +984,11 @@ func invalidRuns(em *emitter, rng *rand.Rand, g *gw.GW, mono *fakesvc.Net, w *wo
 		}
 		text = w.OpText(c)
 		opName = "ZZNoSuchOperation"
+	case "operation-name-for-anonymous":
+		// the document holds one anonymous operation, the request names one
+		c.Name = ""
+		text = w.OpText(c)
+		opName = "ZZNoSuchOperation"
 	case "syntax-error":
 		text = w.OpText(c)
 		text = text[:strings.LastIndex(text, "}")]
@@ -989,7 +998,7 @@ func invalidRuns(em *emitter, rng *rand.Rand, g *gw.GW, mono *fakesvc.Net, w *wo
 	}
 	// confirm with gqlparser on the merged (monolith) schema that the operation is invalid; the two
 	// operation-name kinds are invalid by construction (the document itself validates)
-	if kind != "two-operations-no-name" && kind != "unknown-operation-name" {
+	if kind != "two-operations-no-name" && kind != "unknown-operation-name" && kind != "operation-name-for-anonymous" {
 		_, lg := fakesvc.AnswerFor(mono.Service("http://mono.test"), text, c.VarsToGo(), opName)
 		if lg.Validates {
 			return
